@@ -1133,9 +1133,13 @@ struct Gen {
         // the same with look-alikes: {var:a}, <loop>, </if>, {math:1+1} ... spelled with units whose low bytes are the syntax characters
         static const char *a[] = {"", " ", "\xFBvar:a\xFD ", "a \xA6 b ", "\xBCif case=\xA2" "1\xA2\xBE", "\n", "\xBC/loop\xBE", "\xBC" "b>bold</b\xBE", "{\xF6" "ar:a}",
                                   "\xFBmath:1+1\xFD", "{raw\xBA" "a}", "\xFBsvar:phrase, \xFBvar:a\xFD\xFD", "\xDB", "\xDD", "\xBA ", "\xFBif case=\"1\" true=\"x\"\xFD"};
+        // alias == 2: every other text run is a word that starts like a tag but is none (the documented tags are <if, <loop and <else)
+        static const char *h[] = {"", "<iframe src=\"x\"></iframe>", " ", "<elsewhere>", "<loops>", "<ifx>", "\n", "<else-branch/>", "<b>bold</b>", "<loop2 a>",
+                                  "</iframe>", "<if_a>", "<iffy case=\"1\">", "<looping>", "<elsew>", "<ifs>"};
         auto               n    = std::make_unique<TNode>();
         n->k                    = TNode::Text;
-        n->text                 = (g_alias ? a : t)[e.below(16)];
+        const unsigned     idx  = e.below(16);
+        n->text                 = (g_gkey[1] != 0 && (idx & 1) != 0) ? h[idx] : (g_alias ? a : t)[idx];
         return n;
     }
     std::unique_ptr<TNode> gen_simple(const GenScope &sc) { // Var / Raw / Math
@@ -1370,6 +1374,12 @@ struct Gen {
         }
         n->has_value = e.chance(90);
         n->var       = "it" + std::to_string(++sc.counter);
+        if (g_gkey[1] != 0) {
+            // alias == 2: loop values are named by the first letter(s) of the root's members (num / neg, str / set, items, pair / phrase, flag, map):
+            // {var:num} inside <loop value="n"> is still the root's member
+            static const char *const pre[] = {"n", "s", "i", "p", "f", "ma", "it", "nu"};
+            n->var = std::string(pre[sc.counter % 8]) + (sc.counter >= 8 ? std::to_string(sc.counter) : std::string());
+        }
         if (g_alias && n->has_set && n->has_value && n->path.loop >= 0 && (sc.counter % 2) == 0) {
             // look-alike mode: an inner loop over a member of an outer loop's item reuses the outer loop's name
             // (<loop value="it1" set="it1[kids]">): its set still means the outer item, its body the inner one
